@@ -139,7 +139,7 @@ def build_spec(rng, backend, noline_opt, no_reject=False, risky=False):
         style = rng.pick(["oneline", "oneline", "multiline", "percent", "nobrace"])
         for _ in range(rng.rng(0, 2)):
             emit("")
-        if rng.chance(25) and backend != 'c99':          # ('|' actions of the c99 back end: known finding of C06)
+        if rng.chance(25):
             # a '|' action: the rule shares the action of the next rule, whatever form that action has
             emit("%s%s\t|" % (ch, ch))
             for _ in range(rng.rng(0, 1)):
